@@ -404,7 +404,7 @@ def run(ctx, prop):
             vlib.pandas_mode(ci + 1)
             shape = {0: "skip-middle", 1: "markup-id", 2: "slash-twin", 3: "wide", 5: "attr-only", 6: "hub"}.get(ci % 7)
             # the structural shapes are generated without hostile text, so that what they show is not attributed to the recorded escaping findings
-            hostile = rng.random() < 0.4 and shape in (None, "markup-id")
+            hostile = rng.random() < 0.4 and shape is None
             g, ds = make_graph(rng, ctx.quick(), hostile=hostile, shape=shape, sort_first=(ci % 2 == 1))     # every second graph numbers its base nodes differently
             files = [(n, docs.render(d, rng)) for n, d, _ in ds]
             paths = graphprops.write_files(work, files)
@@ -514,7 +514,8 @@ def run(ctx, prop):
         # where the code splices strings into markup without escaping, the element-level model (what a reader gives back) does not apply;
         # the text-level model below is compared character for character on those cases too
         unesc = CAUSES_OF.get((ci, uri, inc), set()) & {"raw-nodeid-attribute", "quote-in-attribute", "uri-unescaped"}
-        stream = "out-of-domain" if (io[0] == "ill-formed" or unesc) else "write"
+        # (an ill-formed document is outside the model only where a recorded unescaped splice explains it)
+        stream = "out-of-domain" if unesc else "write"
         def first_diff(a, b):
             if a[0] != "ok" or b[0] != "ok": return None
             a = copy.deepcopy(a)
